@@ -524,3 +524,67 @@ def opaque_element(vk, cfg):
     vk.ensures_zero("Field.hess(x_0)==0", f.hess()[0])
     if vk.sym:
         vk.canary("d2hdXdX==naive-push-forward", region.d2hdXdX[..., 0], ref_einsum("aijq,ikq,jlq->aklq", np.moveaxis(Hq, 0, -1), region.drdX[..., 0], region.drdX[..., 0]))
+
+
+@contract("C06", "copies", configs=[dict(hess=h, copy=c) for h in (False, True) for c in (True, False)], engine="ground")
+def copies(vk, cfg):
+    """Region.astype / Region.copy: every table of the copy is the same-named table of the original cast to
+    the dtype (data flow decided by executing the real method on sentinel tables with pairwise distinct
+    values; astype only moves whole arrays, so this is exhaustive for the data flow)"""
+    if not vk.sym:
+        return
+    vk.real(fem.Region.astype)
+    vk.real(fem.Region.copy)
+    with symnp.native():
+        mesh = fem.Rectangle(n=2)
+        region = fem.RegionQuad(mesh, hess=cfg["hess"])
+        names = ["h", "dhdr", "drdX", "dXdr", "dhdX", "dV"] + (["d2hdrdr", "d2hdXdX"] if cfg["hess"] else [])
+        if cfg["copy"]:
+            # copy=True re-evaluates the tables from the mesh: compare with the original's own tables on a
+            # distorted mesh whose cells are not of reference size
+            mesh.points[:] = mesh.points * np.array([0.7, 1.9]) + 0.1 * mesh.points[:, ::-1] ** 2
+            region = fem.RegionQuad(mesh, hess=cfg["hess"])
+            want = {nm: getattr(region, nm).astype(np.float32) for nm in names}
+        else:
+            for k, nm in enumerate(names):
+                getattr(region, nm)[...] = 1.5 + k  # sentinel
+            want = {nm: np.full(getattr(region, nm).shape, np.float32(1.5 + k), dtype=np.float32) for k, nm in enumerate(names)}
+        r32 = region.astype(np.float32, copy=cfg["copy"])
+        ok = {nm: bool(getattr(r32, nm).dtype == np.float32 and getattr(r32, nm).shape == want[nm].shape and np.array_equal(getattr(r32, nm), want[nm])) for nm in names}
+        distinct = all(not np.array_equal(want[a], want[b]) for a in names for b in names if a < b and want[a].shape == want[b].shape)
+        same_object = r32 is region
+    for nm, good in ok.items():
+        vk.ensures_true(f"astype/{nm}==cast(original {nm})", good, "sentinel value and dtype", backend="exec")
+    vk.ensures_true("astype/copy-flag", same_object == (not cfg["copy"]), f"returned the same object: {same_object}", backend="exec")
+    vk.canary_bool("tables-pairwise-distinct", distinct)
+
+
+@contract("C06", "partly_flipped_mesh_warns", configs=[dict(template=t) for t in ("RegionQuad", "RegionTriangle")])
+def partly_flipped_mesh_warns(vk, cfg):
+    """a mesh in which only SOME cells are wrongly oriented is reported as well"""
+    name = cfg["template"]
+    cls, el_cls, domain, space, _ = TEMPLATES[name]
+    el = el_cls()
+    P = gencell.ref_points(el)
+    Pf = P.copy()
+    Pf[[0, 1]] = Pf[[1, 0]]
+    n = len(P)
+    Xa = vk.reals("Xa", P.shape, near=P, spread=0.05)
+    Xb = vk.reals("Xb", P.shape, near=Pf + 4.0, spread=0.05)
+    with symnp.native():
+        qp = np.asarray(_default_quadrature(cls).points, dtype=float)
+    require_valid_cell(vk, el, Xa, qp)
+    for xi in qp:
+        d = det_ref(jacobian_at(vk, el, Xb, xi))
+        if vk.sym:
+            oracle.assume(co(d), "<")
+        elif float(d) >= 0:
+            raise Skip("not inverted")
+    mesh = fem.Mesh(np.concatenate([Xa, Xb]), np.arange(2 * n).reshape(2, n), CELLTYPE[name])
+    with warnings.catch_warnings(record=True) as w:
+        warnings.simplefilter("always")
+        cls(mesh, quadrature=exact_quadrature(vk, cls))
+    if vk.sym:
+        msgs = [str(x.message) for x in w if "Negative volumes" in str(x.message)]
+        vk.ensures_true("warns", len(msgs) >= 1, f"{len(w)} warnings recorded")
+        vk.ensures_true("names-the-flipped-cell", bool(msgs) and "[1]" in msgs[0] and "[0" not in msgs[0], msgs[0][:80] if msgs else "")
